@@ -64,6 +64,10 @@ namespace llbuild {
     struct ProcessInfo {
       /// Whether the process can be safely interrupted.
       bool canSafelyInterrupt;
+
+      /// Whether the process leads a process group of its own. A process that
+      /// is connected to the console stays in the group of its parent.
+      bool hasOwnProcessGroup = true;
     };
 
 
